@@ -12,6 +12,9 @@ pub use magics::bishop_attacks;
 pub use magics::rook_attacks;
 pub use pawns::pawn_attacks;
 
+#[cfg(jgilchrist_tcheran_verif)]
+pub use magics::{verif_table_index_bishop, verif_table_index_rook, VERIF_TABLE_LEN};
+
 pub fn init() {
     magics::init();
 
